@@ -97,13 +97,47 @@ CHECKS['C19'] = dict(
          'refines, mesh invariants.',
     design_ref='3.4', technique='bounded symbolic execution of Mesh.refine_grading + z3 (QF_NRA for sigma = 2)',
     note='sigma = 1.5 outside; unit ratio within [1/32, 32]; decision bound per path as unwinding assertion.')
+CHECKS['C03'] = dict(
+    category='other',
+    text='Skeleton only: the assembly-and-solve statements of example.py (AST-extracted) and the real '
+         'ErrorEstimator.residual are executed with uninterpreted SL / M0 / g and np.linalg.solve as its defining axiom; '
+         'z3 decides that, under the three link hypotheses (element integral of evaluate / M0u0 / g = matrix / load / '
+         'g-linform entry), the element integral of the residual vanishes - a linear identity that fails for a flipped '
+         'sign, wrong index or swapped argument order; g-linform of Dirichlet and MildSingular = exact element integral '
+         'of g. The link hypotheses themselves (quadrature accuracy) are NOT decided.',
+    design_ref='3.18', technique='symbolic execution of example.py statements + residual, z3 QF_LRA over abstracted monomials under the solve axiom',
+    note='Link hypotheses, closed-form M0u0 and the 5e-5 tolerance outside; causality skip of the residual is C04 V1.')
+CHECKS['C07'] = dict(
+    category='other',
+    text='evaluate executed with symbolic x_hat in [0,L] and symbolic times on concrete trial cells of all curves, '
+         'compared per path (identity of canonical forms) with a specification built independently in the harness: '
+         'literal 0 iff t <= t_a, in-element split with mirrored/plain rule graded at x_hat, assertion exactly for '
+         'pieces <= 1e-5, otherwise the rule graded at the end point nearer along the curve (seam-aware), nodes of this '
+         'element, time factor; evaluate_exact = sgn-weighted sum of spacetime_evaluated_1. Digit counts NOT decided.',
+    design_ref='3.14', technique='symbolic execution of evaluate/evaluate_exact vs harness specification on canonical linear forms; z3 for path feasibility',
+    note='Ei/cos/sin uninterpreted; np.select modelled; the specification is the harness author\'s reading of the property.')
+CHECKS['C17'] = dict(
+    category='other',
+    text='Thin part: bilform_matrix and linform_vector executed with uninterpreted space integration / linform, symbolic '
+         'times, an in-order stand-in for the pool, a dict model of np.load/np.save with fault choices (absent, '
+         'ValueError, EOFError, OSError) and an injective stand-in for md5: every entry equals the single-pair '
+         'evaluation on the inline / serial / pool-stand-in / cold / warm / unreadable-cache paths, both sides of the '
+         'N*M = 100 threshold, and lists of equal length never share a cache entry. Real pools, chunking, crash points '
+         'of np.save and md5 collisions are NOT decided.',
+    design_ref='3.19', technique='symbolic execution with modelled file system / pool / md5; identities on canonical forms',
+    note='Schedules and crash points are outside the reach of this technique (stated in DESIGN 3.19).')
+CHECKS['C20'] = dict(
+    category='other',
+    text='HH2ErrorEstimator.estimate, HierarchicalErrorEstimator.estimate, DummyElement.uniform_refinement and Prolongate '
+         'executed on a real mesh with symbolic grid after a bounded history, with bilform_matrix / linform_vector / g '
+         'uninterpreted functions of element geometry, solve as its axiom, the scaling assertion as hypothesis: virtual '
+         'children = real grandchildren in the stated order; fine right-hand side = g - M0; h-h/2 = sqrt(d^T A d) with '
+         'the real ancestor\'s value; hierarchical pair = (e_t + e_tx/2, e_x + e_tx/2); Prolongate = ancestor value.',
+    design_ref='3.17', technique='symbolic execution of the estimators on uninterpreted matrix entries; identities on canonical forms',
+    note='<= 5 coarse elements; pool path outside; psi^T S psi > 0 assumed (C13).')
 NA['C13'] = ('an eigenvalue bound on a matrix whose entries are quadratures of Ei/exp: no fragment of it is a '
              'statement an SMT solver can decide about the real code (DESIGN 3.20)')
-NA['C03'] = 'check not built yet (work in progress; see DESIGN.md for the plan)'
-NA['C07'] = 'check not built yet (work in progress; see DESIGN.md for the plan)'
 NA['C08'] = 'check not built yet (work in progress; see DESIGN.md for the plan)'
 NA['C09'] = 'check not built yet (work in progress; see DESIGN.md for the plan)'
 NA['C14'] = 'check not built yet (work in progress; see DESIGN.md for the plan)'
 NA['C15'] = 'check not built yet (work in progress; see DESIGN.md for the plan)'
-NA['C17'] = 'check not built yet (work in progress; see DESIGN.md for the plan)'
-NA['C20'] = 'check not built yet (work in progress; see DESIGN.md for the plan)'
